@@ -10,7 +10,7 @@ open Proto Par
                                                         -> done:<list> | error | stuck   under the schedule
                                                            prefix (pids) followed by round-robin
       explore <cur|orig> <ncpu> <n> <faults> <logs>     -> set of outcomes over *all* schedules, `;`-separated
-    faults: `-` or `;`-separated  pid:raise:t | pid:exit:t:code | pid:xq:code:flushed
+    faults: `-` or `;`-separated  pid:raise:t | pid:exit:t:code | pid:xq:code:flushed | pid:xp:code (partial write)
 -/
 
 def parseFault (s : String) : Option (Nat × Fault) :=
@@ -18,6 +18,7 @@ def parseFault (s : String) : Option (Nat × Fault) :=
   | [p, "raise", t] => some (p.toNat! - 1, .raiseAt t.toNat!)
   | [p, "exit", t, c] => some (p.toNat! - 1, .exitAt t.toNat! c.toNat!)
   | [p, "xq", c, b] => some (p.toNat! - 1, .exitQueued c.toNat! (b == "1"))
+  | [p, "xp", c] => some (p.toNat! - 1, .exitQueuedPartial c.toNat!)
   | _ => none
 
 def parseFaults (s : String) : Nat → Option Fault :=
@@ -32,10 +33,11 @@ structure Key (M : Type) where
   acc0 : List Nat
   rq : List (Nat × List Nat)
   ws : List (Child Nat)
+  poison : Option Nat
   deriving BEq, Hashable
 
 def keyOf {M : Type} (n : Nat) (s : State M Nat) : Key M :=
-  ⟨s.m, s.acc0, s.rq, (List.range n).map s.ws⟩
+  ⟨s.m, s.acc0, s.rq, (List.range n).map s.ws, s.poison⟩
 
 def agents (n : Nat) : List Agent := (List.range (n + 1)).map agentOf
 
@@ -88,6 +90,8 @@ def answer (line : String) : String :=
   match tokens line with
   | ["split", n, ncpu] =>
       String.intercalate "|" ((arraySplit (List.range n.toNat!) ncpu.toNat!).map (fListD toString))
+  | ["run", _, "0", _, _, _, _] => "error"
+  | ["explore", _, "0", _, _, _] => "error"
   | ["run", kind, ncpu, n, faults, logs, pre] =>
       let cfg := cfgOf ncpu.toNat! n.toNat! faults logs
       let p := (pList pN pre).map agentOf
